@@ -160,6 +160,43 @@ def run_sequence(text, info, seq_seed, length):
     return None
 
 
+def shared_array_value(text, info):
+    """two instances made from one and the same ndarray object do not share it: changing the array held by the
+    first (or the caller's array afterwards) leaves the second as it was"""
+    if not info.get("array_params"):
+        return None
+    r = core.impl_loads(text)
+    if r[0] != "ok" or not r[1].is_template():
+        return None
+    t = r[1]
+    rng = random.Random(7)
+    vals, arrays = gen.gen_param_values(rng, info)
+    kw = dict(vals)
+    objs = {n: np.array(v, dtype=float) for n, v in arrays.items()}
+    kw.update(objs)
+    with core.quiet():
+        try:
+            i1 = t(**kw)
+            i2 = t(**kw)
+        except Exception:  # noqa: BLE001
+            return None
+    before = snapshot(i2)
+    for v in list(i1._var.values()):
+        if isinstance(v, np.ndarray) and v.size and v.dtype != object:
+            v.flat[0] = 4242.0
+    for o in i1._operations:
+        for a in list(o.get("args", [])) + list(o.get("kwargs", {}).values()):
+            if isinstance(a, np.ndarray) and a.size and a.dtype != object:
+                a.flat[0] = 4343.0
+    for a in objs.values():
+        a.flat[0] = 4444.0
+    after = snapshot(i2)
+    if before != after:
+        return "an instance changes when another instance made from the same array value (or that array) is edited: %r -> %r" % (
+            common.short(before[0], 200), common.short(after[0], 200))
+    return None
+
+
 def graph_readonly(text):
     from blackbird.utils import to_DiGraph
     r = core.impl_loads(text)
@@ -244,7 +281,7 @@ def run(ctx):
         ctx.case((text, seq_seed), nontrivial=True)
         ctx.sample({"text": text, "sequence_seed": seq_seed, "length": ln})
         texts.append(text)
-        msg = run_sequence(text, info, seq_seed, ln)
+        msg = run_sequence(text, info, seq_seed, ln) or shared_array_value(text, info)
         if msg:
             ctx.violation("read-only operation: " + msg, {"kind": "sequence", "text": text, "info": info,
                                                          "seq_seed": seq_seed, "length": ln})
